@@ -203,7 +203,10 @@ def coq_build(prop_files, timeout=1500, jobs=None):
                 os.remove(os.path.join(COQ, t + ext))
             except OSError:
                 pass
-    rc, out = sh(["make", "-k", "-j%d" % (jobs or NCPU)] + targets, cwd=COQ, timeout=timeout)
+    # every coqc runs under its own time limit (COQC_TIMEOUT seconds, default 1200): one file that no longer terminates
+    # is reported as a broken obligation instead of stalling the whole check
+    rc, out = sh(["make", "-k", "-j%d" % (jobs or NCPU), "COQC=timeout %s coqc" % os.environ.get("COQC_TIMEOUT", "1200")] + targets,
+                 cwd=COQ, timeout=timeout)
     res.log = out
     # failures
     for m in re.finditer(r'File "\./([^"]+)", line (\d+), characters [\d-]+:\n(Error:?.*?)(?=\n\S*make|\nFile |\Z)', out, flags=re.S):
